@@ -216,6 +216,8 @@ class ODMLReader:
 
             par = DictReader(ignore_errors=True,
                              show_warnings=self.show_warnings)
+            # Problems met while parsing are collected as warnings, see XML above.
+            self.warnings = par.warnings
             self.doc = par.to_odml(self.parsed_doc)
             # Provide original file name via the in memory document
             self.doc.origin_file_name = basename(file)
